@@ -271,26 +271,27 @@ type finding struct {
 }
 
 type pExec struct {
-	cfg     pcfg
-	p       lz.Parser
-	wp      *lz.WrappedParser
-	rd      *scriptReader
-	bc      lz.BufConfig // defaults-completed buffer configuration
-	minM    int
-	maxM    int
-	fed     []byte // bytes accepted since the last Reset
-	cpos    int    // bytes consumed by Parse since the last Reset
-	off     int    // expected Off (sum of Shrink deltas)
-	nilUsed bool   // Parse(nil) used since the last Reset / sort invalidation (C12 excludes those)
-	lines   []string
-	dead    bool
-	finds   []finding
-	cnt     counters
-	blkBuf  lz.Block
-	wrapEOF bool
-	twinOn  bool      // compare with a parser that is fresh since the last Reset (C13)
-	twin    lz.Parser
-	twinBlk lz.Block
+	cfg           pcfg
+	p             lz.Parser
+	wp            *lz.WrappedParser
+	rd            *scriptReader
+	bc            lz.BufConfig // defaults-completed buffer configuration
+	minM          int
+	maxM          int
+	fed           []byte // bytes accepted since the last Reset
+	cpos          int    // bytes consumed by Parse since the last Reset
+	off           int    // expected Off (sum of Shrink deltas)
+	nilUsed       bool   // Parse(nil) used since the last Reset / sort invalidation (C12 excludes those)
+	nilSinceReset bool
+	lines         []string
+	dead          bool
+	finds         []finding
+	cnt           counters
+	blkBuf        lz.Block
+	wrapEOF       bool
+	twinOn        bool // compare with a parser that is fresh since the last Reset (C13)
+	twin          lz.Parser
+	twinBlk       lz.Block
 }
 
 func newPExec(cfg pcfg, cnt counters) (*pExec, string) {
@@ -463,6 +464,7 @@ func (e *pExec) step(line string) (out string) {
 			e.fed = append(e.fed[:0], data...)
 			e.cpos, e.off = 0, 0
 			e.nilUsed = false
+			e.nilSinceReset = false
 			e.cnt.inc("p.reset.ok")
 			if len(data) > 0 {
 				e.cnt.inc("p.reset.data")
@@ -616,6 +618,7 @@ func (e *pExec) checkNil(n int, err error) {
 	}
 	e.cnt.inc("p.parsenil.data")
 	e.nilUsed = true
+	e.nilSinceReset = true
 	if err != nil || n != want {
 		e.find("C14", "Parse(nil) returns a wrong n", "Parse(nil)", fmt.Sprintf("n=%d want=%d err=%v", n, want, err))
 		if n < 0 || n > e.unparsed() {
@@ -759,6 +762,10 @@ func (e *pExec) checkBlock(site string, n int, err error, flags int) {
 	want := e.fed[e.cpos : e.cpos+n]
 	if xerr != nil || string(got) != string(want) {
 		e.find("C01", "block does not expand to the bytes consumed", site, fmt.Sprintf("err=%v got=%x want=%x", xerr, got, want))
+		if e.nilSinceReset {
+			e.find("C14", "block parsed after Parse(nil) is not correct for a decoder that got the skipped bytes verbatim", site,
+				fmt.Sprintf("err=%v got=%x want=%x", xerr, got, want))
+		}
 	}
 	// C02 / C19 per sequence
 	pos := e.cpos
